@@ -468,12 +468,7 @@ theorem Mid.finish {S : Sem Val Err Op} {w1 : World Val Err Op} {env : PId → V
 
 theorem mem_consumersOf {w : World Val Err Op} {q : PId} {c : Consumer Val} :
     c ∈ consumersOf w q ↔ c ∈ w.consumers ∧ q ∈ c.deps := by
-  simp only [consumersOf, List.mem_flatMap, List.mem_replicate]
-  constructor
-  · rintro ⟨c', h1, h2, rfl⟩
-    exact ⟨h1, List.count_pos_iff.1 (Nat.pos_of_ne_zero h2)⟩
-  · rintro ⟨h1, h2⟩
-    exact ⟨c, h1, Nat.ne_of_gt (List.count_pos_iff.2 h2), rfl⟩
+  simp [consumersOf, List.mem_filter]
 
 /-- **the update step**: storing a new input value, running the invalidation watchers and then the
 where-triggers / watch callbacks (none of which raised) re-establishes coherence for the new inputs -/
